@@ -160,6 +160,10 @@ def run_pool(ctx, name, nr, nc, **kw):
             ctx.count(n_eval)
             n += cnt
             for key, what, case in out:
+                if key.startswith('OBS/'):
+                    obs = ctx.extra.setdefault('observations', {}).setdefault(key[4:], {'what': what, 'cases': 0, 'first': case})
+                    obs['cases'] += 1
+                    continue
                 ctx.violation(key, what, dict(case, run=name))
     ctx.traces += n
     ctx.extra.setdefault('pool_runs', {})[name] = n
